@@ -569,8 +569,6 @@ def oracle_step(g, ob, oa):
         if k == 2 and lab[1] < 0:
             return None          # delete_before_cursor asserts count >= 0: documented precondition
         fam = "raises-in-broken-menu" if broken_before else "raises"
-        if k in (4, 5) and lab[1] < 0 and st == 1:
-            fam = "raises-negative-count"
         return ("%s raised (status %d)" % (label_str(lab), st), {"family": fam, "at": LNAMES[k]})
     # cycling
     if k in (4, 5) and bcs and not broken_before:
@@ -579,12 +577,11 @@ def oracle_step(g, ob, oa):
         bi = bidx[0] if bidx else None
         cnt, nowrap = lab[1], lab[2]
         if n >= 1:
-            # C15_cycle_* (count 1) and C15_next_count / C15_prev_count (any count that stays in range;
-            # a call that gets here did not raise)
+            # C15_cycle_* (count 1) and C15_next_count / C15_prev_count (every count: clamped to 0..n-1)
             if k == 4:
-                exp = 0 if bi is None else ((bi if nowrap else None) if bi == n - 1 else min(n - 1, bi + cnt))
+                exp = 0 if bi is None else ((bi if nowrap else None) if bi == n - 1 else max(0, min(n - 1, bi + cnt)))
             else:
-                exp = n - 1 if bi is None else ((bi if nowrap else None) if bi == 0 else max(0, bi - cnt))
+                exp = n - 1 if bi is None else ((bi if nowrap else None) if bi == 0 else max(0, min(n - 1, bi - cnt)))
             if not ocs or not ocs[0][0] or ocs[0][2] != bcomps or ocs[0][1] != borig or (ocs[0][3][0] if ocs[0][3] else None) != exp:
                 return ("%s from index %r of %d completions must select %r in the same menu" % (LNAMES[k], bi, n, exp),
                         {"family": "cycle", "at": LNAMES[k]})
@@ -739,6 +736,16 @@ def cycle_cases():
                     groups = [[[7, 0]], [[9]]] + ys + ([[[9], [11, 0]]] if loaded else []) + [[[op, 1, 0]]] * k
                     groups += [[[9 - op, 1, 0]]] * (n + 1) + [[[6]]]
                     out.append([[0, 0, 0, 10000], S("a"), 1, groups])
+    # every count (negative, zero, beyond the ends) from every selection of a loaded menu of 2 and 3
+    for n in (2, 3):
+        ys = [[[9], [10, 0, S(comps[i][0]), comps[i][1]]] for i in range(n)]
+        for sel in range(n + 1):            # sel == n: nothing selected
+            for op in (4, 5):
+                for cnt in (-5, -2, -1, 0, 2, 5):
+                    for nowrap in (0, 1):
+                        groups = [[[7, 0]], [[9]]] + ys + [[[9], [11, 0]]] + [[[4, 1, 0]]] * ((sel + 1) % (n + 1))
+                        groups += [[[op, cnt, nowrap]], [[6]]]
+                        out.append([[0, 0, 0, 10000], S("a"), 1, groups])
     return out
 
 
